@@ -73,8 +73,26 @@ func GetCPUPlans(resourceInfo *types.NodeResourceInfo, originCPUMap types.CPUMap
 		numaCPUMap[numaNodeID][cpuID] = availableResource.CPUMap[cpuID]
 	}
 
+	// visit numa nodes in a fixed order, the ones already hosting the workload first,
+	// so that a re-allocation does not hop between numa nodes
+	numaNodeIDs := []string{}
+	for numaNodeID := range numaCPUMap {
+		numaNodeIDs = append(numaNodeIDs, numaNodeID)
+	}
+	sort.Strings(numaNodeIDs)
+	hostsOrigin := func(numaNodeID string) bool {
+		for cpuID := range originCPUMap {
+			if resourceInfo.Capacity.NUMA[cpuID] == numaNodeID {
+				return true
+			}
+		}
+		return false
+	}
+	sort.SliceStable(numaNodeIDs, func(i, j int) bool { return hostsOrigin(numaNodeIDs[i]) && !hostsOrigin(numaNodeIDs[j]) })
+
 	// get cpu plan for each numa node
-	for numaNodeID, cpuMap := range numaCPUMap {
+	for _, numaNodeID := range numaNodeIDs {
+		cpuMap := numaCPUMap[numaNodeID]
 		// a NUMA node's free memory may exceed the node's total free memory (workloads without NUMA binding use only the latter)
 		numaMemory := utils.Min(availableResource.NUMAMemory[numaNodeID], availableResource.Memory)
 		numaCPUPlans := doGetCPUPlans(originCPUMap, cpuMap, numaMemory, shareBase, maxFragmentCores, req.CPURequest, req.MemRequest)
